@@ -33,6 +33,10 @@ type c02Case struct {
 	Docs      map[string]*jv.V `json:"docs,omitempty"`
 	Instances []*jv.V          `json:"instances"`
 	Configs   []string         `json:"configs,omitempty"` // $schema values for family config ("" = absent)
+	// NearMiss: the root's $schema differs from a draft-07 spelling only by the trailing '#'.
+	// Whether the package supports such a spelling is its own choice, so the expectation is a
+	// disjunction: refused for every instance, OR validated with draft-07 semantics throughout.
+	NearMiss bool `json:"near_miss,omitempty"`
 }
 
 var unsupportedSchemas = []string{
@@ -97,7 +101,17 @@ func checkC02(c *c02Case, rec *ev.Recorder) *failure {
 	if err := m.ResolveEverything(); err != nil {
 		return failf("HARNESS: generated universe has a dangling reference: %v", err)
 	}
-	m20, _ := refmodel.New(&refmodel.Universe{Root: c.Root, RootURI: c.RootURI, Docs: c.Docs}, refmodel.D2020)
+	// the same document read as 2020-12, only to classify cases on which the drafts disagree
+	// (fragment-only $id values, which 2020-12 refuses, are dropped from the copy first)
+	root20 := c.Root.Clone()
+	root20.Walk(func(x *jv.V) {
+		if x.K == jv.Obj {
+			if id := x.Get("$id"); id != nil && id.K == jv.Str && len(id.S) > 0 && id.S[0] == '#' {
+				x.Del("$id")
+			}
+		}
+	})
+	m20, _ := refmodel.New(&refmodel.Universe{Root: root20, RootURI: c.RootURI, Docs: c.Docs}, refmodel.D2020)
 	doc := c.Root.JSON()
 	return guard(func() *failure {
 		var s jsonschema.Schema
@@ -110,7 +124,31 @@ func checkC02(c *c02Case, rec *ev.Recorder) *failure {
 		}
 		rs, err := s.Resolve(opts)
 		if err != nil {
+			if c.NearMiss {
+				if rec != nil {
+					rec.Class("near-miss-$schema:refused-by-Resolve")
+				}
+				return nil // refused
+			}
 			return failf("Resolve rejects a well-formed draft-07 universe: %v\n root: %s\n docs: %s", err, doc, mustJSON(c.Docs))
+		}
+		if c.NearMiss {
+			anyAccepted := false
+			for _, inst := range c.Instances {
+				if rs.Validate(inst.ToAny()) == nil {
+					anyAccepted = true
+				}
+			}
+			if rec != nil {
+				rec.ClassIf(anyAccepted, "near-miss-$schema:treated-as-supported")
+				rec.ClassIf(!anyAccepted, "near-miss-$schema:refused")
+			}
+			if !anyAccepted {
+				if rec != nil {
+					rec.Eval(true, []byte(doc), func() any { return map[string]any{"family": "near-miss", "root": c.Root, "outcome": "refused"} })
+				}
+				return nil // refused for every instance
+			}
 		}
 		for _, inst := range c.Instances {
 			visited := map[*refmodel.Node]bool{}
@@ -328,6 +366,83 @@ func genC02Remote(t *rapid.T) *c02Case {
 	return c
 }
 
+// genC02Differ builds a draft-07 document around one or two constructs whose meaning differs
+// between the drafts, with instances aimed at the difference.
+func genC02Differ(t *rapid.T) *c02Case {
+	c := &c02Case{Family: "doc"}
+	n := func(k int, l string) int { return rapid.IntRange(0, k-1).Draw(t, l) }
+	sub := func() *jv.V { return sgen.Sub(t, sgen.Opts{Draft: refmodel.D7, NoRefs: true}, 1) }
+	root := jv.ObjV(jv.Member{K: "$schema", V: jv.StrV([]string{refmodel.URI7, refmodel.URI7Sec}[n(2, "uri")])})
+	defs := jv.ObjV(jv.Member{K: "a", V: sub()})
+	refTargets := []string{"#/definitions/a"}
+	if n(2, "withanchor") == 0 {
+		defs.Set("b", jv.ObjV(jv.Member{K: "$id", V: jv.StrV("#anch")}, jv.Member{K: "type", V: jv.StrV(rapid.SampledFrom(sgen.Types).Draw(t, "anchtype"))}))
+		refTargets = append(refTargets, "#anch", "#/definitions/b")
+	}
+	root.Set("definitions", defs)
+	holder := root
+	if n(2, "nested") == 0 {
+		holder = jv.ObjV()
+		root.Set("properties", jv.ObjV(jv.Member{K: "a", V: holder}))
+	}
+	for i, k := 0, 1+n(2, "nconstructs"); i < k; i++ {
+		switch n(5, "construct") {
+		case 0, 1: // $ref with asserting siblings
+			holder.Set("$ref", jv.StrV(rapid.SampledFrom(refTargets).Draw(t, "reft")))
+			// a restrictive sibling (ignored in draft-07, asserting in 2020-12)
+			switch n(6, "sibling") {
+			case 0:
+				holder.Set("type", jv.StrV(rapid.SampledFrom(sgen.Types).Draw(t, "sibtype")))
+			case 1:
+				holder.Set("minimum", jv.NumV("5"))
+			case 2:
+				holder.Set("required", jv.ArrV(jv.StrV("zz")))
+			case 3:
+				holder.Set("maxLength", jv.NumV("0"))
+			case 4:
+				holder.Set("not", jv.ObjV())
+			default:
+				holder.Set("const", jv.NumV("1"))
+			}
+		case 2: // array-form items + additionalItems
+			arr := &jv.V{K: jv.Arr}
+			for j, m := 0, n(3, "nitems"); j < m; j++ {
+				arr.A = append(arr.A, sub())
+			}
+			holder.Set("items", arr)
+			if n(3, "addl") > 0 {
+				holder.Set("additionalItems", sub())
+			}
+		case 3: // dependencies
+			d := jv.ObjV()
+			d.Set(rapid.SampledFrom(jv.KeyPool).Draw(t, "depk"), jv.ArrV(jv.StrV(rapid.SampledFrom(jv.KeyPool).Draw(t, "depv"))))
+			d.Set(rapid.SampledFrom(jv.KeyPool).Draw(t, "depk2"), sub())
+			holder.Set("dependencies", d)
+		default: // object-form items with additionalItems (which must then be ignored)
+			holder.Set("items", sub())
+			holder.Set("additionalItems", jv.BoolV(false))
+		}
+	}
+	if n(5, "nearmiss") == 0 {
+		c.NearMiss = true
+		root.Set("$schema", jv.StrV([]string{"http://json-schema.org/draft-07/schema", "https://json-schema.org/draft-07/schema"}[n(2, "nm")]))
+	}
+	c.Root = root
+	c.Instances = sgen.Instances(t, root, 2)
+	// plus free values, arrays and objects aimed at the constructs
+	for i := 0; i < 3; i++ {
+		c.Instances = append(c.Instances, jv.Gen(jv.Opts{MaxDepth: 2, MaxLen: 4}).Draw(t, "aimed"))
+	}
+	if holder != root {
+		for i := range c.Instances {
+			if n(2, "wrap") == 0 {
+				c.Instances[i] = jv.ObjV(jv.Member{K: "a", V: c.Instances[i]})
+			}
+		}
+	}
+	return c
+}
+
 func TestC02(t *testing.T) {
 	rec := ev.For("C02")
 	defer finish(rec)
@@ -341,7 +456,9 @@ func TestC02(t *testing.T) {
 		"a loaded document declares no $schema or a draft-07 one (cross-draft referencing is outside the property)")
 	rapid.Check(t, func(t *rapid.T) {
 		var c *c02Case
-		switch rapid.IntRange(0, 9).Draw(t, "family") {
+		switch rapid.IntRange(0, 11).Draw(t, "family") {
+		case 10, 11:
+			c = genC02Differ(t)
 		case 0, 1, 2, 3:
 			c = &c02Case{Family: "doc"}
 			c.Root = sgen.Draw(t, sgen.Opts{Draft: refmodel.D7, MaxDepth: 3})
